@@ -27,6 +27,17 @@ Theorem C18_writable_iff : forall s rank F st n, Acyclic s rank -> (forall m, ra
 Proof. exact writable_iff. Qed.
 Print Assumptions C18_writable_iff.
 
+(* the specification itself: a writable (readable) node passed the base conditions, is no swiss
+   knife, and if it is a register its access mode is not RO (WO) *)
+Theorem C18_spec_sanity : forall s ival bval n nd, nth_error s n = Some nd ->
+  (Writable s ival bval n -> BaseW s ival bval nd) /\
+  (Readable s ival bval n -> BaseR s ival bval nd) /\
+  (Writable s ival bval n -> nkind nd <> KIntSwissKnife /\ nkind nd <> KSwissKnife) /\
+  (Writable s ival bval n -> RegisterKind (nkind nd) -> regmode nd <> RO) /\
+  (Readable s ival bval n -> RegisterKind (nkind nd) -> regmode nd <> WO).
+Proof. exact spec_sanity. Qed.
+Print Assumptions C18_spec_sanity.
+
 (* the corollaries hold for the pinned code as well (any configuration c) *)
 Theorem C18_locked_not_writable : forall c s rank F st n nd l, Acyclic s rank -> (forall m, rank m < F) ->
   nth_error s n = Some nd -> p_lock nd = Some l -> bool_from_id s F st l = Ok true ->
@@ -68,6 +79,14 @@ Theorem C18_const_not_writable : forall c s rank F st n nd, Acyclic s rank -> (f
   is_writable c s F st n <> Ok true.
 Proof. exact const_not_writable. Qed.
 Print Assumptions C18_const_not_writable.
+
+Theorem C18_const_entry_not_writable : forall c s rank F st n nd idx es d i v,
+  Acyclic s rank -> (forall m, rank m < F) ->
+  nth_error s n = Some nd -> nkind nd = KInteger \/ nkind nd = KFloat ->
+  nvalue nd = VPIndex idx es d -> val s F st idx = Ok i -> select i es d = IImm v ->
+  is_writable c s F st n <> Ok true.
+Proof. exact const_entry_not_writable. Qed.
+Print Assumptions C18_const_entry_not_writable.
 
 (* The answers track the current values of the pIsLocked / pIsAvailable / pIsImplemented nodes: a
    history step is a change of one leaf (a value slot, a register content: [upd st a b v]).  After
